@@ -18,15 +18,19 @@ theorem edges_nil_of_inputs_only {c : Cache} (h : c.WF) (hi : ∀ x ∈ c.held, 
   have := h.edgeHead e he
   exact this.2 (hi _ this.1)
 
-theorem run_from (ordered : List Node) (succs preds : Node → List Node) (targets : List Node)
+/-- **the run from ANY well-formed cache** whose values are not planned and none of whose trace
+edges starts at a planned element: what the cache held (user inputs AND calculated values, with
+their edges) is exactly as before, the targets are added, value-pasted, and the planned elements
+ran once each in the planned order -/
+theorem run_from_any (ordered : List Node) (succs preds : Node → List Node) (targets : List Node)
     (size fuel : Nat) (c0 : Cache) (hz : 1 ≤ size) (ht : isTopo succs ordered = true) (hd : ordered.Nodup)
-    (h0 : c0.WF) (h0i : ∀ x ∈ c0.held, x ∈ c0.inputs) (h0d : ∀ x ∈ c0.held, x ∉ ordered)
+    (h0 : c0.WF) (h0d : ∀ x ∈ c0.held, x ∉ ordered) (h0e : ∀ e ∈ c0.edges, e.1 ∉ ordered)
     (hp : ∀ n ∈ ordered, ∀ p ∈ preds n, (p ∈ ordered ∧ n ∈ succs p) ∨ p ∈ c0.held) :
     (∀ x, x ∈ (execute preds (fuel + 1) (calcSteps ordered succs targets size) c0).held ↔
         (x ∈ targets ∧ x ∈ ordered) ∨ x ∈ c0.held) ∧
     (∀ x, x ∈ (execute preds (fuel + 1) (calcSteps ordered succs targets size) c0).inputs ↔
-        x ∈ (execute preds (fuel + 1) (calcSteps ordered succs targets size) c0).held) ∧
-    (execute preds (fuel + 1) (calcSteps ordered succs targets size) c0).edges = [] ∧
+        (x ∈ targets ∧ x ∈ ordered) ∨ x ∈ c0.inputs) ∧
+    (∀ e, e ∈ (execute preds (fuel + 1) (calcSteps ordered succs targets size) c0).edges ↔ e ∈ c0.edges) ∧
     (execute preds (fuel + 1) (calcSteps ordered succs targets size) c0).log = c0.log ++ ordered := by
   have key : ∀ m, SInv ordered succs targets size c0 m
       ((List.range m).foldl
@@ -34,12 +38,12 @@ theorem run_from (ordered : List Node) (succs preds : Node → List Node) (targe
     intro m
     induction m with
     | zero =>
-      refine ⟨?_, ?_, edges_nil_of_inputs_only h0 h0i, by simp⟩
+      refine ⟨?_, ?_, fun e => Iff.rfl, by simp⟩
       · intro x; simp [heldAt, pastedAt]
-      · intro x; exact ⟨h0.inputsHeld x, h0i x⟩
+      · intro x; simp [heldAt, pastedAt]
     | succ m ih =>
       rw [List.range_succ, List.foldl_append]
-      exact step_inv ordered succs targets size preds c0 ht hd h0d hp fuel m _ ih
+      exact step_inv ordered succs targets size preds c0 ht hd h0 h0d h0e hp fuel m _ ih
   have hrun : execute preds (fuel + 1) (calcSteps ordered succs targets size) c0 =
       (List.range (nSteps ordered succs targets size)).foldl
         (fun c k => execStep preds (fuel + 1) (stepAt ordered succs targets size k) c) c0 := by
@@ -50,10 +54,41 @@ theorem run_from (ordered : List Node) (succs preds : Node → List Node) (targe
   have hfull := List.take_of_length_le (nSteps_covers ordered succs targets size hz)
   have hnil := finalPasted_nil ordered succs targets size hz ht
   rw [finalPasted_eq] at hnil
-  refine ⟨?_, inv.inputs, inv.edges, by rw [inv.log, hfull]⟩
-  intro x
-  rw [inv.held]
-  simp [heldAt, hnil, hfull]
+  refine ⟨?_, ?_, inv.edges, by rw [inv.log, hfull]⟩
+  · intro x
+    rw [inv.held]
+    simp [heldAt, hnil, hfull]
+  · intro x
+    rw [inv.inputs]
+    simp [heldAt, hnil, hfull]
+
+theorem run_from (ordered : List Node) (succs preds : Node → List Node) (targets : List Node)
+    (size fuel : Nat) (c0 : Cache) (hz : 1 ≤ size) (ht : isTopo succs ordered = true) (hd : ordered.Nodup)
+    (h0 : c0.WF) (h0i : ∀ x ∈ c0.held, x ∈ c0.inputs) (h0d : ∀ x ∈ c0.held, x ∉ ordered)
+    (hp : ∀ n ∈ ordered, ∀ p ∈ preds n, (p ∈ ordered ∧ n ∈ succs p) ∨ p ∈ c0.held) :
+    (∀ x, x ∈ (execute preds (fuel + 1) (calcSteps ordered succs targets size) c0).held ↔
+        (x ∈ targets ∧ x ∈ ordered) ∨ x ∈ c0.held) ∧
+    (∀ x, x ∈ (execute preds (fuel + 1) (calcSteps ordered succs targets size) c0).inputs ↔
+        x ∈ (execute preds (fuel + 1) (calcSteps ordered succs targets size) c0).held) ∧
+    (execute preds (fuel + 1) (calcSteps ordered succs targets size) c0).edges = [] ∧
+    (execute preds (fuel + 1) (calcSteps ordered succs targets size) c0).log = c0.log ++ ordered := by
+  have he0 := edges_nil_of_inputs_only h0 h0i
+  obtain ⟨a, b, c, d⟩ := run_from_any ordered succs preds targets size fuel c0 hz ht hd h0 h0d
+    (by rw [he0]; intro e he; cases he) hp
+  refine ⟨a, ?_, ?_, d⟩
+  · intro x
+    rw [a x, b x]
+    constructor
+    · rintro (h | h)
+      · exact Or.inl h
+      · exact Or.inr (h0.inputsHeld x h)
+    · rintro (h | h)
+      · exact Or.inl h
+      · exact Or.inr (h0i x h)
+  · rw [List.eq_nil_iff_forall_not_mem]
+    intro e he
+    have := (c e).mp he
+    rw [he0] at this; cases this
 
 /-! ## what tracing records -/
 
@@ -143,6 +178,116 @@ theorem traceTargets_records (preds : Node → List Node) (fuel : Nat) (targets 
     · rw [if_neg ht]
       exact (evalNode_records preds fuel t c).trans (ih _)
 
+/-- evaluation keeps what was held, holds at its end every element whose formula ran, and adds no
+edge but those of the calls made by such elements -/
+structure Stores (preds : Node → List Node) (c c' : Cache) : Prop where
+  mono : ∀ x ∈ c.held, x ∈ c'.held
+  stored : ∀ n ∈ c'.log.drop c.log.length, n ∈ c'.held
+  only : ∀ e ∈ c'.edges, e ∈ c.edges ∨ (e.2 ∈ c'.log.drop c.log.length ∧ e.1 ∈ preds e.2)
+  logPrefix : ∃ new, c'.log = c.log ++ new
+
+theorem Stores.refl (preds : Node → List Node) (c : Cache) : Stores preds c c :=
+  ⟨fun _ h => h, by simp, fun _ h => Or.inl h, ⟨[], by simp⟩⟩
+
+theorem Stores.trans {preds : Node → List Node} {a b c : Cache} (h1 : Stores preds a b)
+    (h2 : Stores preds b c) : Stores preds a c := by
+  obtain ⟨n1, l1⟩ := h1.logPrefix
+  obtain ⟨n2, l2⟩ := h2.logPrefix
+  have e1 : b.log.drop a.log.length = n1 := by rw [l1, List.drop_left]
+  have e2 : c.log.drop b.log.length = n2 := by rw [l2, List.drop_left]
+  have e3 : c.log.drop a.log.length = n1 ++ n2 := by rw [l2, l1, List.append_assoc, List.drop_left]
+  refine ⟨fun x hx => h2.mono x (h1.mono x hx), ?_, ?_, ⟨n1 ++ n2, by rw [l2, l1, List.append_assoc]⟩⟩
+  · intro n hn
+    rw [e3] at hn
+    rcases List.mem_append.mp hn with hn | hn
+    · exact h2.mono n (h1.stored n (by rw [e1]; exact hn))
+    · exact h2.stored n (by rw [e2]; exact hn)
+  · intro e he
+    rw [e3]
+    rcases h2.only e he with h | ⟨h, hp⟩
+    · rcases h1.only e h with h | ⟨h, hp⟩
+      · exact Or.inl h
+      · rw [e1] at h; exact Or.inr ⟨List.mem_append_left _ h, hp⟩
+    · rw [e2] at h; exact Or.inr ⟨List.mem_append_right _ h, hp⟩
+
+theorem evalNode_stores (preds : Node → List Node) (fuel : Nat) :
+    ∀ (n : Node) (c : Cache), Stores preds c (evalNode preds fuel n c) := by
+  induction fuel with
+  | zero => intro n c; exact Stores.refl preds c
+  | succ fuel ih =>
+    intro n c
+    unfold evalNode
+    by_cases hn : n ∈ c.held
+    · rw [if_pos hn]; exact Stores.refl preds c
+    · rw [if_neg hn]
+      have fold : ∀ (ps : List Node) (c0 : Cache),
+          (∀ x ∈ c0.held, x ∈ (ps.foldl (fun c p => (evalNode preds fuel p c).addEdge p n) c0).held) ∧
+          (∃ new, (ps.foldl (fun c p => (evalNode preds fuel p c).addEdge p n) c0).log = c0.log ++ new ∧
+            (∀ m ∈ new, m ∈ (ps.foldl (fun c p => (evalNode preds fuel p c).addEdge p n) c0).held) ∧
+            ∀ e ∈ (ps.foldl (fun c p => (evalNode preds fuel p c).addEdge p n) c0).edges,
+              e ∈ c0.edges ∨ (e.2 ∈ new ∧ e.1 ∈ preds e.2) ∨ (e.2 = n ∧ e.1 ∈ ps)) := by
+        intro ps
+        induction ps with
+        | nil => intro c0; exact ⟨fun _ h => h, [], by simp, by simp, fun e he => Or.inl he⟩
+        | cons p ps ihp =>
+          intro c0
+          simp only [List.foldl_cons]
+          have r1 := ih p c0
+          obtain ⟨n1, l1⟩ := r1.logPrefix
+          have d1 : (evalNode preds fuel p c0).log.drop c0.log.length = n1 := by rw [l1, List.drop_left]
+          obtain ⟨m3, n3, l3, s3, o3⟩ := ihp ((evalNode preds fuel p c0).addEdge p n)
+          refine ⟨fun x hx => m3 x (r1.mono x hx), n1 ++ n3, ?_, ?_, ?_⟩
+          · rw [l3]; simp only [Cache.addEdge]; rw [l1, List.append_assoc]
+          · intro m hm
+            rcases List.mem_append.mp hm with hm | hm
+            · exact m3 m (r1.stored m (by rw [d1]; exact hm))
+            · exact s3 m hm
+          · intro e he
+            rcases o3 e he with h | ⟨h, hp⟩ | ⟨h, hp⟩
+            · simp only [Cache.addEdge, List.mem_append, List.mem_singleton] at h
+              rcases h with h | rfl
+              · rcases r1.only e h with h | ⟨h, hp⟩
+                · exact Or.inl h
+                · rw [d1] at h; exact Or.inr (Or.inl ⟨List.mem_append_left _ h, hp⟩)
+              · exact Or.inr (Or.inr ⟨rfl, by simp⟩)
+            · exact Or.inr (Or.inl ⟨List.mem_append_right _ h, hp⟩)
+            · exact Or.inr (Or.inr ⟨h, List.mem_cons_of_mem _ hp⟩)
+      obtain ⟨mf, new, hl, sf, of⟩ := fold (preds n) (c.enter n)
+      generalize (preds n).foldl (fun c p => (evalNode preds fuel p c).addEdge p n) (c.enter n) = cf
+        at mf hl sf of
+      have hl' : (cf.store n).log = c.log ++ (n :: new) := by
+        simp only [Cache.store]; rw [hl]; simp [Cache.enter]
+      have hd : (cf.store n).log.drop c.log.length = n :: new := by rw [hl', List.drop_left]
+      refine ⟨?_, ?_, ?_, ⟨n :: new, hl'⟩⟩
+      · intro x hx
+        simp only [Cache.store, List.mem_append]
+        exact Or.inl (mf x (by simpa [Cache.enter] using hx))
+      · intro m hm
+        rw [hd] at hm
+        simp only [Cache.store, List.mem_append, List.mem_singleton]
+        rcases List.mem_cons.mp hm with rfl | hm
+        · exact Or.inr rfl
+        · exact Or.inl (sf m hm)
+      · intro e he
+        rw [hd]
+        have he' : e ∈ cf.edges := by simpa [Cache.store] using he
+        rcases of e he' with h | ⟨h, hp⟩ | ⟨h, hp⟩
+        · exact Or.inl (by simpa [Cache.enter] using h)
+        · exact Or.inr ⟨List.mem_cons_of_mem _ h, hp⟩
+        · exact Or.inr ⟨by rw [h]; simp, by rw [h]; exact hp⟩
+
+theorem traceTargets_stores (preds : Node → List Node) (fuel : Nat) (targets : List Node) (c : Cache) :
+    Stores preds c (traceTargets preds fuel targets c) := by
+  unfold traceTargets
+  induction targets generalizing c with
+  | nil => exact Stores.refl preds c
+  | cons t ts ih =>
+    simp only [List.foldl_cons]
+    by_cases ht : t ∈ c.inputs
+    · rw [if_pos ht]; exact ih c
+    · rw [if_neg ht]
+      exact (evalNode_stores preds fuel t c).trans (ih _)
+
 /-- every element whose formula ran while tracing has the edge from each element it calls -/
 theorem trace_edges (preds : Node → List Node) (fuel : Nat) (targets : List Node) (c : Cache) :
     ∀ n ∈ calculated preds fuel targets c, ∀ p ∈ preds n,
@@ -198,19 +343,133 @@ theorem mem_succsOf {edges : List (Node × Node)} {p n : Node} : n ∈ succsOf e
     rw [← this]; exact he
   · intro h; exact ⟨(p, n), ⟨h, rfl⟩, rfl⟩
 
-/-- **generate, plan, execute.**  From a cache that holds user inputs only: trace the targets
-(`generate_actions`), take ANY duplicate-free list of exactly the traced elements that is a
-topological order of the recorded trace edges (`nx.topological_sort` of the sub graph), plan it for
-the targets that are not user inputs, clear what was traced, execute the plan.  Provided tracing
-ran to completion (everything a traced element calls has a value when tracing ends - the depth
-bound was not hit): exactly the user inputs and the targets are held at the end, the targets
-value-pasted, no trace edge is left, and the formulas that ran during the execution are exactly
-the traced elements, each once, in the planned order. -/
+/-! ## generate, plan, execute on ANY cache (the repaired `generate_actions`, 77e9cc3) -/
+
+theorem mem_withAncs {edges : List (Node × Node)} {t p : Node} (h : p ∈ withAncs edges t) :
+    p = t ∨ ∃ e ∈ edges, e.1 = p := by
+  unfold withAncs at h
+  rcases mem_withDescs h with h | ⟨e, he, h⟩
+  · exact Or.inl h
+  · rw [List.mem_map] at he
+    obtain ⟨e0, he0, rfl⟩ := he
+    exact Or.inr ⟨e0, he0, h⟩
+
+/-- every planned element has a value when tracing ends -/
+theorem planned_held (preds : Node → List Node) (fuel : Nat) (targets : List Node) (c : Cache)
+    (h : c.WF) (hct : ∀ e ∈ c.edges, e.1 ∈ c.held)
+    (hcomp : ∀ n ∈ (traceTargets preds fuel targets c).held, n ∉ c.inputs → ∀ p ∈ preds n,
+      p ∈ (traceTargets preds fuel targets c).held ∧ (p, n) ∈ (traceTargets preds fuel targets c).edges) :
+    ∀ p ∈ planned preds fuel targets c, p ∈ (traceTargets preds fuel targets c).held ∧ p ∉ c.inputs := by
+  have st := traceTargets_stores preds fuel targets c
+  obtain ⟨_, gi, new, gl, gs, gg, gd⟩ := traceTargets_spec preds fuel targets c h
+  have hcalc : calculated preds fuel targets c = new := by unfold calculated; rw [gl]; simp
+  have hnewin : ∀ x ∈ new, x ∉ c.inputs := fun x hx hi => gd x hx (h.inputsHeld x hi)
+  intro p hp
+  unfold planned at hp
+  rcases List.mem_append.mp hp with hp | hp
+  · refine ⟨st.stored p hp, hnewin p (by rw [← hcalc]; exact hp)⟩
+  · obtain ⟨_, hpi, t, _, _, hth, hanc⟩ := mem_preHeld hp
+    refine ⟨?_, hpi⟩
+    rcases mem_withAncs hanc with rfl | ⟨e, he, rfl⟩
+    · exact hth
+    · rcases st.only e he with h0 | ⟨hn, hpn⟩
+      · exact st.mono _ (hct e h0)
+      · have hn' : e.2 ∈ new := by rw [← hcalc]; exact hn
+        exact (hcomp e.2 (st.stored e.2 hn) (hnewin e.2 hn') e.1 hpn).1
+
+/-- **generate, plan, execute from ANY well-formed cache** (user inputs and calculated values).
+`hct`: the trace edges of the cache start at elements that have a value; `hcomp`: when tracing
+ends the cache is complete – every calculated value has its callees held and the calls recorded
+(the cache was complete and tracing ran to completion); `hclosed`: what `nx.ancestors` delivers is
+closed under callees (the model's backward search is complete on this graph); `hset`/`hd`/`ht`:
+`ordered` is a duplicate-free topological order of exactly the planned elements.  Then: the
+targets are held and value-pasted; whatever else is held was held before and is none of the
+planned elements (nothing the targets were calculated from is left); user inputs and the trace
+edges of the untouched values are as `generate_actions` left them; the execution ran exactly
+the planned elements, each once, in the planned order. -/
+theorem generate_then_execute_any (preds : Node → List Node) (fuel fuel' : Nat) (targets ordered : List Node)
+    (size : Nat) (c : Cache) (hz : 1 ≤ size) (h : c.WF) (hct : ∀ e ∈ c.edges, e.1 ∈ c.held)
+    (hcomp : ∀ n ∈ (traceTargets preds (fuel + 1) targets c).held, n ∉ c.inputs → ∀ p ∈ preds n,
+      p ∈ (traceTargets preds (fuel + 1) targets c).held ∧
+      (p, n) ∈ (traceTargets preds (fuel + 1) targets c).edges)
+    (hclosed : ∀ n ∈ planned preds (fuel + 1) targets c, ∀ p ∈ preds n, p ∉ c.inputs →
+      p ∈ planned preds (fuel + 1) targets c)
+    (hset : ∀ x, x ∈ ordered ↔ x ∈ planned preds (fuel + 1) targets c) (hd : ordered.Nodup)
+    (ht : isTopo (succsOf (traceTargets preds (fuel + 1) targets c).edges) ordered = true) :
+    let plan := calcSteps ordered (succsOf (traceTargets preds (fuel + 1) targets c).edges)
+      (targets.filter (fun t => !decide (t ∈ c.inputs))) size
+    let L := generateLeaves preds (fuel + 1) targets c
+    let r := execute preds (fuel' + 1) plan L
+    (∀ x, x ∈ r.held ↔ x ∈ targets ∨ x ∈ L.held) ∧
+    (∀ x ∈ L.held, x ∈ c.held ∧ x ∉ planned preds (fuel + 1) targets c) ∧
+    (∀ x, x ∈ r.inputs ↔ x ∈ targets ∨ x ∈ c.inputs) ∧
+    (∀ e, e ∈ r.edges ↔ e ∈ L.edges) ∧ r.log = L.log ++ ordered := by
+  intro plan L r
+  obtain ⟨wL, gin, gheld, _, gedges⟩ := generateLeaves_general preds (fuel + 1) targets c h
+  obtain ⟨w1, gi, new, gl, gs, gg, gd⟩ := traceTargets_spec preds (fuel + 1) targets c h
+  have hcalc : calculated preds (fuel + 1) targets c = new := by unfold calculated; rw [gl]; simp
+  have hpl := planned_held preds (fuel + 1) targets c h hct hcomp
+  have hLd : ∀ x ∈ L.held, x ∉ ordered := fun x hx ho => (gheld x hx).2 ((hset x).mp ho)
+  have hLe : ∀ e ∈ L.edges, e.1 ∉ ordered := by
+    intro e he ho
+    have hp := (hset _).mp ho
+    exact (clear_fold_gone (planned preds (fuel + 1) targets c) (traceTargets preds (fuel + 1) targets c) w1
+      e.1 hp (hpl e.1 hp).1 e he).1 rfl
+  have hp : ∀ n ∈ ordered, ∀ p ∈ preds n,
+      (p ∈ ordered ∧ n ∈ succsOf (traceTargets preds (fuel + 1) targets c).edges p) ∨ p ∈ L.held := by
+    intro n hn p hpn
+    have hnp := (hset n).mp hn
+    obtain ⟨hnh, hni⟩ := hpl n hnp
+    obtain ⟨hph, hedge⟩ := hcomp n hnh hni p hpn
+    by_cases hpi : p ∈ c.inputs
+    · exact Or.inr (wL.inputsHeld p ((gin p).mpr hpi))
+    · exact Or.inl ⟨(hset p).mpr (hclosed n hnp p hpn hpi), mem_succsOf.mpr hedge⟩
+  obtain ⟨r1, r2, r3, r4⟩ := run_from_any ordered (succsOf (traceTargets preds (fuel + 1) targets c).edges) preds
+    (targets.filter (fun t => !decide (t ∈ c.inputs))) size fuel' L hz ht hd wL hLd hLe hp
+  have htgt : ∀ x, x ∈ targets → x ∉ c.inputs → x ∈ ordered := by
+    intro x hx hxi
+    rw [hset]
+    have hheld := target_traced preds fuel targets c h x hx hxi
+    by_cases hc : x ∈ calculated preds (fuel + 1) targets c
+    · exact List.mem_append_left _ hc
+    · exact List.mem_append_right _ (preHeld_of hx hxi hheld (self_mem_withDescs _ x) hc hxi)
+  refine ⟨?_, gheld, ?_, r3, r4⟩
+  · intro x
+    show x ∈ r.held ↔ _
+    rw [r1 x]
+    constructor
+    · rintro (⟨hx, _⟩ | hx)
+      · exact Or.inl (List.mem_filter.mp hx).1
+      · exact Or.inr hx
+    · rintro (hx | hx)
+      · by_cases hxi : x ∈ c.inputs
+        · exact Or.inr (wL.inputsHeld x ((gin x).mpr hxi))
+        · exact Or.inl ⟨List.mem_filter.mpr ⟨hx, by simp [hxi]⟩, htgt x hx hxi⟩
+      · exact Or.inr hx
+  · intro x
+    show x ∈ r.inputs ↔ _
+    rw [r2 x, gin x]
+    constructor
+    · rintro (⟨hx, _⟩ | hx)
+      · exact Or.inl (List.mem_filter.mp hx).1
+      · exact Or.inr hx
+    · rintro (hx | hx)
+      · by_cases hxi : x ∈ c.inputs
+        · exact Or.inr hxi
+        · exact Or.inl ⟨List.mem_filter.mpr ⟨hx, by simp [hxi]⟩, htgt x hx hxi⟩
+      · exact Or.inr hx
+
+/-- **generate, plan, execute from a cache that holds user inputs only.**  No hypothesis about the
+graph is needed here: if tracing ran to completion (`hdone`: everything a traced element calls has a
+value when tracing ends – the depth bound was not hit), then for ANY duplicate-free topological
+order of the planned elements: exactly the user inputs and the targets are held at the end, all of
+them marked as inputs (the targets value-pasted), no trace edge is left, and the execution ran
+exactly the planned elements, each once, in the planned order. -/
 theorem generate_then_execute (preds : Node → List Node) (fuel fuel' : Nat) (targets ordered : List Node)
     (size : Nat) (c : Cache) (hz : 1 ≤ size) (h : c.WF) (hc : ∀ x ∈ c.held, x ∈ c.inputs)
     (hdone : ∀ n ∈ calculated preds (fuel + 1) targets c, ∀ p ∈ preds n,
       p ∈ (traceTargets preds (fuel + 1) targets c).held)
-    (hset : ∀ x, x ∈ ordered ↔ x ∈ calculated preds (fuel + 1) targets c) (hd : ordered.Nodup)
+    (hset : ∀ x, x ∈ ordered ↔ x ∈ planned preds (fuel + 1) targets c) (hd : ordered.Nodup)
     (ht : isTopo (succsOf (traceTargets preds (fuel + 1) targets c).edges) ordered = true) :
     let plan := calcSteps ordered (succsOf (traceTargets preds (fuel + 1) targets c).edges)
       (targets.filter (fun t => !decide (t ∈ c.inputs))) size
@@ -220,49 +479,42 @@ theorem generate_then_execute (preds : Node → List Node) (fuel fuel' : Nat) (t
   intro plan r
   obtain ⟨g1, g2, g3⟩ := generateLeaves_spec preds (fuel + 1) targets c h hc
   obtain ⟨w1, gi, new, gl, gs, gg, gd⟩ := traceTargets_spec preds (fuel + 1) targets c h
-  have hcalc : calculated preds (fuel + 1) targets c = new := by
-    unfold calculated; rw [gl]; simp
-  have wL : (generateLeaves preds (fuel + 1) targets c).WF :=
-    ⟨fun x hx => (g1 x).mpr (h.inputsHeld x ((g2 x).mp hx)), fun e he => by rw [g3] at he; cases he⟩
-  have hLi : ∀ x ∈ (generateLeaves preds (fuel + 1) targets c).held,
-      x ∈ (generateLeaves preds (fuel + 1) targets c).inputs :=
-    fun x hx => (g2 x).mpr (hc x ((g1 x).mp hx))
-  have hLd : ∀ x ∈ (generateLeaves preds (fuel + 1) targets c).held, x ∉ ordered := by
-    intro x hx ho
-    have := (hset x).mp ho
-    rw [hcalc] at this
-    exact gd x this ((g1 x).mp hx)
-  have hp : ∀ n ∈ ordered, ∀ p ∈ preds n,
-      (p ∈ ordered ∧ n ∈ succsOf (traceTargets preds (fuel + 1) targets c).edges p) ∨
-      p ∈ (generateLeaves preds (fuel + 1) targets c).held := by
-    intro n hn p hpn
-    have hn' := (hset n).mp hn
-    have hheld := hdone n hn' p hpn
-    rcases gg p hheld with hh | hh
-    · exact Or.inr ((g1 p).mpr hh)
-    · refine Or.inl ⟨(hset p).mpr (by rw [hcalc]; exact hh), ?_⟩
-      exact mem_succsOf.mpr (trace_edges preds (fuel + 1) targets c n hn' p hpn)
-  obtain ⟨r1, r2, r3, r4⟩ := run_from ordered (succsOf (traceTargets preds (fuel + 1) targets c).edges) preds
-    (targets.filter (fun t => !decide (t ∈ c.inputs))) size fuel' (generateLeaves preds (fuel + 1) targets c)
-    hz ht hd wL hLi hLd hp
-  refine ⟨?_, r2, r3, r4⟩
-  intro x
-  show x ∈ r.held ↔ _
-  rw [r1 x, g1 x]
-  constructor
-  · rintro (⟨hx, _⟩ | hx)
-    · exact Or.inl (List.mem_filter.mp hx).1
-    · exact Or.inr hx
-  · rintro (hx | hx)
-    · by_cases hxi : x ∈ c.inputs
-      · exact Or.inr (h.inputsHeld x hxi)
-      · left
-        refine ⟨List.mem_filter.mpr ⟨hx, by simp [hxi]⟩, (hset x).mpr ?_⟩
-        rw [hcalc]
-        have hheld := target_traced preds fuel targets c h x hx hxi
-        rcases gg x hheld with hh | hh
-        · exact (hxi (hc x hh)).elim
-        · exact hh
-    · exact Or.inr hx
+  have hcalc : calculated preds (fuel + 1) targets c = new := by unfold calculated; rw [gl]; simp
+  have he0 := edges_nil_of_inputs_only h hc
+  have hcomp : ∀ n ∈ (traceTargets preds (fuel + 1) targets c).held, n ∉ c.inputs → ∀ p ∈ preds n,
+      p ∈ (traceTargets preds (fuel + 1) targets c).held ∧
+      (p, n) ∈ (traceTargets preds (fuel + 1) targets c).edges := by
+    intro n hn hni p hpn
+    have hnew : n ∈ calculated preds (fuel + 1) targets c := by
+      rcases gg n hn with hh | hh
+      · exact (hni (hc n hh)).elim
+      · rw [hcalc]; exact hh
+    exact ⟨hdone n hnew p hpn, trace_edges preds (fuel + 1) targets c n hnew p hpn⟩
+  have hct : ∀ e ∈ c.edges, e.1 ∈ c.held := by rw [he0]; intro e he; cases he
+  have hclosed : ∀ n ∈ planned preds (fuel + 1) targets c, ∀ p ∈ preds n, p ∉ c.inputs →
+      p ∈ planned preds (fuel + 1) targets c := by
+    intro n hn p hpn hpi
+    obtain ⟨hnh, hni⟩ := planned_held preds (fuel + 1) targets c h hct hcomp n hn
+    rcases gg p (hcomp n hnh hni p hpn).1 with hh | hh
+    · exact (hpi (hc p hh)).elim
+    · exact List.mem_append_left _ (by rw [hcalc]; exact hh)
+  obtain ⟨a1, _, a3, a4, a5⟩ := generate_then_execute_any preds fuel fuel' targets ordered size c hz h hct
+    hcomp hclosed hset hd ht
+  refine ⟨?_, ?_, ?_, a5⟩
+  · intro x; show x ∈ r.held ↔ _; rw [a1 x, g1 x]
+  · intro x
+    show x ∈ r.inputs ↔ x ∈ r.held
+    rw [a1 x, a3 x, g1 x]
+    constructor
+    · rintro (hx | hx)
+      · exact Or.inl hx
+      · exact Or.inr (h.inputsHeld x hx)
+    · rintro (hx | hx)
+      · exact Or.inl hx
+      · exact Or.inr (hc x hx)
+  · rw [List.eq_nil_iff_forall_not_mem]
+    intro e he
+    have := (a4 e).mp he
+    rw [g3] at this; cases this
 
 end MxModel.CalcSteps
